@@ -3,9 +3,9 @@ package rules
 
 import (
 	"encoding/json"
-	"sort"
 	"os"
 	"path/filepath"
+	"sort"
 
 	"verif/tools/core"
 	"verif/tools/load"
@@ -43,9 +43,9 @@ func register(id, level string, run func(*Ctx)) { Registry[id] = &Prop{id, level
 
 // Common trusted contracts.
 var (
-	TrustGo      = "go/packages, go/types and go/ssa (x/tools v0.29.0) faithfully represent the program the Go compiler builds"
-	TrustRegexp  = "regexp/syntax Parse+Simplify+Compile yields the instruction program the runtime regexp matcher executes (same front end); MatchString = unanchored search over runes, invalid UTF-8 bytes seen as U+FFFD"
-	TrustTokenizer = "x/net/html tokenizer contract: tag names and attribute keys are ASCII-lower-cased, attribute values and text are entity-decoded, Token.Attr is a fresh slice per token, ErrorToken terminates the stream"
+	TrustGo          = "go/packages, go/types and go/ssa (x/tools v0.29.0) faithfully represent the program the Go compiler builds"
+	TrustRegexp      = "regexp/syntax Parse+Simplify+Compile yields the instruction program the runtime regexp matcher executes (same front end); MatchString = unanchored search over runes, invalid UTF-8 bytes seen as U+FFFD"
+	TrustTokenizer   = "x/net/html tokenizer contract: tag names and attribute keys are ASCII-lower-cased, attribute values and text are entity-decoded, Token.Attr is a fresh slice per token, ErrorToken terminates the stream"
 	TrustTokenString = "x/net/html Token.String escapes & ' < > \" and CR in text and attribute values and serialises comments through escapeCommentString"
 )
 
